@@ -34,6 +34,20 @@ expect 1 "used_by:
 owned_by:"
 expect 2 "used_by: 10
 owned_by: 30"
+expect_in() {  # expect_in <file> <instance> <expected output>
+    got=$(./check "$HERE/$1" "$2" 2>>/tmp/c11_stderr.log)
+    if [ "$got" = "$3" ]; then
+        echo "ok   $1 #$2: $(echo "$got" | tr '\n' ';')"
+    else
+        echo "FAIL $1 #$2: expected $(echo "$3" | tr '\n' ';') got $(echo "$got" | tr '\n' ';')"
+        rc=1
+    fi
+}
+# several referrers of one aggregate inverse (before fix: only the last one was kept)
+expect_in many_referrers.p21 2 "used_by: 10 11 12
+owned_by: 30"
+expect_in many_referrers.p21 1 "used_by: 12
+owned_by:"
 if [ $rc -eq 0 ]; then echo "PASS: inverse attributes hold exactly the real referrers"; else echo "BROKEN: an inverse attribute does not hold its real referrers"; fi
 exit $rc
 
